@@ -33,7 +33,7 @@ def fname(f):
     if f["ticket"]:
         s += "-tkt"
     if f["npn"]:
-        s += "-npn"
+        s += "-npn" + ("0" if f["npn"] == "empty" else "")
     if f["resume"] != "none":
         s += "-res" + f["resume"]
     if f["hrr"]:
@@ -73,6 +73,8 @@ def all_flavours(level="core"):
                 out.append(flavour(ver, kex, resume="id"))
                 if ver > 0:
                     out.append(flavour(ver, kex, npn=True))
+                if ver == 3 and kex == "ecdhe_rsa":
+                    out.append(flavour(ver, kex, npn="empty"))
                 if level != "core" and ver > 0:
                     out.append(flavour(ver, kex, reqCert="cert", npn=True, ticket=True))
                     out.append(flavour(ver, kex, reqCert="cert", ccred="c_ecdsa"))
@@ -150,6 +152,10 @@ def build(f, cextra=None, sextra=None):
     if f["npn"]:
         ckw["nextProtos"] = [b"http/1.1", b"spdy/3"]
         skw["nextProtos"] = [b"spdy/3", b"http/1.1"]
+        if f["npn"] == "empty":
+            # the server supports NPN but has no protocol to advertise: the extension goes out empty and the client's
+            # NextProtocol message is as mandatory as ever
+            skw["nextProtos"] = []
     cs.update(cextra or {})
     ss.update(sextra or {})
     ckw["settings"] = settings(**cs)
